@@ -58,6 +58,7 @@ class TermModel:
         self._st = 0                  # parser state: 0 ground, 1 esc, 2 csi, 3 esc-intermediate
         self._buf = ""
         self.autowrap = True          # DECAWM
+        self.other_modes = set()      # further DEC private modes that are switched on
         self.el_in_pending = 0        # probe: EL executed while pending wrap
         self.wraps = 0                # probe: autowrap happened
 
@@ -300,7 +301,12 @@ class TermModel:
                         if not on:
                             self.pending = False
                     elif m in (1, 12, 1000, 1002, 1003, 1004, 1005, 1006, 1015, 2004, 2026):
-                        pass
+                        # (application cursor keys, blinking, mouse reporting, bracketed paste, synchronised output:
+                        # no effect on what the screen shows, but it is terminal state that a program may leave behind)
+                        if on:
+                            self.other_modes.add(m)
+                        else:
+                            self.other_modes.discard(m)
                     else:
                         self.unknown.append("CSI ?%r%s" % (m, final))
                 return
